@@ -383,6 +383,15 @@ func pickWeights(rnd *rand.Rand, n int) []uint64 {
 			ws[i] = uint64(1 + rnd.Intn(6))
 		}
 	}
+	// a member without voting weight (it still has its place in the order of the committee: it leads its views); decided from
+	// the draws already made, so that the other runs of a seed stay what they were
+	var sum uint64
+	for _, w := range ws {
+		sum += w
+	}
+	if n >= 5 && sum%3 == 0 {
+		ws[int(sum)%n] = 0
+	}
 	return ws
 }
 
